@@ -14,5 +14,31 @@ def run_engines(tier, seed):
     return eng_topoload.run_engine(tier, seed)
 
 def replay(path):
-    print(open(path).read())
-    return 0
+    """./check C01 --replay FILE: load every plan line of FILE ('#' lines ignored; @SNAP@ = extracted snapshot directory) with both XML
+    back ends, judge the dump with the Lean oracle, exit 1 if a loaded topology is not well-formed or hwloc aborts."""
+    import os, shutil
+    from common import build_harness, lake_build, BUILD
+    from diffrun import read_lines
+    import gen_tables, snapshots
+    gen_tables.generate_all()
+    lake_build(["hwmodel"])
+    binp = build_harness("topoload")
+    snapshots.write_sources(os.devnull, "XFC")
+    wd = os.path.join(BUILD, "run", "topoload-replay-%d" % os.getpid())
+    bad = 0
+    try:
+        for l in read_lines(path):
+            if not l.strip() or l.startswith("#"):
+                continue
+            l = l.replace("@SNAP@", snapshots.SNAP)
+            cid = l.split()[0]
+            for lx in (0, 1):
+                rr, vv = eng_topoload.replay_case(binp, wd, l, lx)
+                v = vv.get(cid, "load failed (no dump)")
+                print("%s [HWLOC_LIBXML=%d] -> %s%s" % (l, lx, v, "" if rr.returncode == 0 else "  harness exit %d\n%s" % (rr.returncode, rr.stdout[-1500:])))
+                if rr.returncode != 0 or (cid in vv and v != "WF ok"):
+                    bad += 1
+    finally:
+        shutil.rmtree(wd, ignore_errors=True)
+    print("REPLAY: %s" % ("NOT WELL-FORMED / FAILS" if bad else "every loaded topology is well-formed"))
+    return 1 if bad else 0
